@@ -66,7 +66,7 @@ def make_problem(sp, spec):
         y = cplx_randn(rs, (n,), cplx)
     dtype = y.dtype
     z = cplx_randn(rs, (n, 1), cplx).astype(dtype) if spec["z"] else None
-    lam = LAM if spec["lam"] else 0
+    lam = LAM * spec.get("lamscale", 1) if spec["lam"] else 0      # lamscale: l2 weight well above ||A||^2
     gkind = spec["gkind"]
     if gkind == "dense":
         k = max(1, n - 1)
@@ -460,6 +460,9 @@ CORPUS = [
     dict(spec=dict(seed=7, n=4, m=4, cplx=False, akind="identity", gkind="fd", prox="l1", lam=True, z=True), solver="ADMM", given=False, xgiven=False),
     # fixed aea7ae2: PDHG + non-square G + proxg None + lamda 0 raised at the first update (Stack sized m+n instead of m+k)
     dict(spec=dict(seed=0, n=4, m=6, cplx=False, gkind="dense", prox=None, lam=False, z=False), solver="PrimalDualHybridGradient", given=False, xgiven=False),
+    # lamda >> ||A||^2 with defaulted steps
+    dict(spec=dict(seed=8, n=3, m=4, cplx=False, gkind=None, prox="l1", lam=True, z=True, lamscale=200), solver="GradientMethod", given=False, xgiven=False),
+    dict(spec=dict(seed=8, n=3, m=4, cplx=True, gkind=None, prox=None, lam=True, z=False, lamscale=50), solver="GradientMethod", given=False, xgiven=True),
 ]
 
 
@@ -554,6 +557,18 @@ def run(ctx):
             if solver is None and ci % 2:
                 continue          # the default choice duplicates an explicit solver; run it on every other problem
             jobs.append(dict(spec=spec, solver=solver, given=bool(rng.getrandbits(1)), xgiven=bool(rng.getrandbits(1))))
+    # a dominant l2 term (lamda >> ||A||^2): every default step size / preconditioner must account for lamda
+    for ci in range(ctx.n(6, 40)):
+        pk, gk = rng.choice(PROXES), rng.choice(GKINDS)
+        cplx = (ci % 3 == 1) and pk != "box"
+        n = rng.choice([2, 3, 4])
+        spec = dict(seed=rng.randrange(2 ** 31), n=n, m=n + rng.choice([0, 1, 2]), cplx=cplx, akind=rng.choice(["matmul", "matmul", "identity"]),
+                    gkind=gk, prox=pk, lam=True, z=bool(rng.getrandbits(1)), lamscale=rng.choice([50, 200]))
+        # (not ADMM: its default rho = 1 does not depend on lamda, and with rho << lamda the 500 iterations run here are
+        # not enough to reach the comparison tolerance — slow, not wrong)
+        for solver in SOLVERS[:4]:
+            if model_accepts(solver, pk is not None, gk is not None):
+                jobs.append(dict(spec=spec, solver=solver, given=False, xgiven=bool(rng.getrandbits(1))))
     bad, stats = [], {"runs": 0, "reference_unreliable": 0, "max_rel_gap": {}}
     for job in jobs:
         spec, solver = job["spec"], job["solver"]
